@@ -117,7 +117,15 @@ def apply(tree):
         for l in lines:
             if text.count("\n" + l + "\n") != 1:
                 raise RuntimeError("slice anchor lost in %s: %r" % (src, l))
-        parts = [prelude] + [l + "\n" for l in lines] + [_extract_function(text, f, src) for f in firsts]
+        funcs = [_extract_function(text, f, src) for f in firsts]
+        # file-scope static helper functions that the sliced functions call are sliced along
+        helpers = []
+        for m in re.finditer(r"^(static [^\n;{}]*?\b(\w+)\s*\([^;{}]*\))\s*\n?\{", text, flags=re.M):
+            name = m.group(2)
+            if any(re.search(r"\b%s\s*\(" % re.escape(name), f) for f in funcs):
+                first = text[m.start():text.index("\n", m.start())]
+                helpers.append(_extract_function(text, first, src))
+        parts = [prelude] + [l + "\n" for l in lines] + helpers + funcs
         open(os.path.join(tree, out), "w").write("\n".join(parts))
         fired.append({"file": src, "kind": "slice", "pattern": "; ".join(firsts), "count": len(firsts),
                       "why": "function slice -> %s (verbatim function texts; the rest of the file is dropped)" % out})
